@@ -4,6 +4,7 @@ import SMGo.Spec.SM4Fast
 import SMGo.Spec.GCM
 import SMGo.Model.GCMAlgo
 import Driver.GCMGlue
+import Driver.GCMGlueArm64
 open SMGo
 
 namespace Driver.GCM
@@ -61,6 +62,6 @@ def handle (toks : List String) : Option String :=
   | "gcm.sealglue.spec" :: _ => Driver.GCMGlue.handle toks
   | "gcm.openglue.spec" :: _ => Driver.GCMGlue.handle toks
   | "sm3.sumglue" :: _ => Driver.GCMGlue.handle toks
-  | _ => none
+  | _ => Driver.GCMGlueArm64.handle toks  -- gcm.sealglue.a64 / gcm.openglue.a64 (arm64 Go glue)
 
 end Driver.GCM
